@@ -1,5 +1,5 @@
 """C01 - after any successful edit the source text still parses to exactly the live tree."""
-from contracts import k_offset, k_indent, k_cache
+from contracts import k_offset, k_indent, k_cache, k_bistr
 from pyvc.contract import verify_all
 from pyvc import native
 
@@ -9,6 +9,7 @@ def run(rep, tier, seed):
     verify_all(rep, k_offset.specs('C01') + k_offset.specs_text('C01') + k_offset.specs_offset_lns('C01') +
                k_indent.specs('C01'))
     k_cache.flush_structural(rep, 'C01')
+    k_bistr.units_structural(rep, 'C01')   # AST column fields / offset deltas receive byte quantities by construction
     # B: runtime postcondition on the public edit API, ast.parse + own comparator as oracle
     ops = ['self', 'remove', 'donor', 'slice', 'seq', 'accessors', 'views', 'optional', 'move']
     sec = native.run('b_edit', 'main', {'props': ['C01'], 'tier': tier, 'seed': seed, 'ops': ops, 'norm': True})
